@@ -423,7 +423,139 @@ def case_hostile(spec, cov, out):
         probes.uninstall_all()
 
 
-RUN = {"routes": case_routes, "topology": case_topology, "hostile": case_hostile}
+# ------------------------------------------------------------------------------------------------ wireless routers
+def case_wireless(spec, cov, out):
+    """k wireless routers (access point = port 1 on a shared /24, wired interface = port 2 with one host behind it), full mesh of static
+    routes over the air. Own small oracle: a ping between two hosts must succeed iff both hosts and both routers are ON, both wired
+    interfaces and both access points are enabled and the two access points are on the SAME frequency - whatever happened before
+    (access point disabled / enabled by request, routers power-cycled, access points re-configured onto another frequency through
+    configure_wireless_access_point, ARP caches flushed)."""
+    from primaite.simulator.network.airspace import AirSpaceFrequency
+
+    rnd = random.Random(spec["seed"])
+    k = spec.get("routers", 2)
+    freqs = ["WIFI_2_4", "WIFI_5"]
+    z = dict(start_up_duration=0, shut_down_duration=0)
+    n = corpus.Net()
+    st = {}
+    for i in range(1, k + 1):
+        f0 = rnd.choice(freqs) if spec.get("mixed_start") else "WIFI_2_4"
+        node = {"type": "wireless-router", "hostname": f"wr{i}", **z,
+                "router_interface": {"ip_address": f"10.{i}.0.1", "subnet_mask": "255.255.255.0"},
+                "wireless_access_point": {"ip_address": f"10.100.0.{i}", "subnet_mask": "255.255.255.0", "frequency": f0},
+                "acl": {1: {"action": "PERMIT"}},
+                "routes": [{"address": f"10.{j}.0.0", "subnet_mask": "255.255.255.0", "next_hop_ip_address": f"10.100.0.{j}", "metric": 0}
+                           for j in range(1, k + 1) if j != i]}
+        n.nodes.append(node)
+        n.host(f"h{i}", f"10.{i}.0.10", gw=f"10.{i}.0.1", **z)
+        n.link(f"h{i}", 1, f"wr{i}", 2)
+        st[i] = {"on": True, "ap": True, "wired": True, "freq": f0, "host_on": True}
+    cfg = n.scenario()
+    probes.uninstall_all()
+    tr = FrameTracer(cov, out, {"seed": spec["seed"], "wireless_routers": k})
+    tr.install()
+    try:
+        game = corpus.build_game(cfg)
+        sim = game.simulation
+        R = {i: sim.network.get_node_by_hostname(f"wr{i}") for i in st}
+        H = {i: sim.network.get_node_by_hostname(f"h{i}") for i in st}
+        t = 0
+        sim.pre_timestep(t)
+
+        def expect(a, b):
+            for i in (a, b):
+                s_ = st[i]
+                if not (s_["on"] and s_["ap"] and s_["wired"] and s_["host_on"]):
+                    return False
+            return st[a]["freq"] == st[b]["freq"]
+
+        def req(path):
+            r = sim.apply_request(path)
+            return r.status if r is not None else None
+
+        for rd in range(spec.get("rounds", 6)):
+            if rd > 0:
+                for _ in range(rnd.choice([1, 1, 2])):
+                    i = rnd.choice(sorted(st))
+                    op = rnd.choice(["ap-off", "ap-on", "refreq", "refreq", "refreq-off", "power-off", "power-on", "wired-off", "wired-on", "arp-clear", "tick"])
+                    down = [j for j in sorted(st) if not st[j]["on"]]
+                    if down and rnd.random() < 0.5:  # bring a powered-off router back more often than chance would
+                        i, op = rnd.choice(down), "power-on"
+                    s_ = st[i]
+                    if s_["on"] and not (s_["ap"] and s_["wired"]) and rnd.random() < 0.4:
+                        op = "ap-on" if not s_["ap"] else "wired-on"
+                    if op == "ap-off" and s_["on"]:
+                        if req(["network", "node", f"wr{i}", "network_interface", 1, "disable"]) == "success":
+                            s_["ap"] = False
+                    elif op == "ap-on" and s_["on"]:
+                        if req(["network", "node", f"wr{i}", "network_interface", 1, "enable"]) == "success":
+                            s_["ap"] = True
+                    elif op == "wired-off" and s_["on"]:
+                        if req(["network", "node", f"wr{i}", "network_interface", 2, "disable"]) == "success":
+                            s_["wired"] = False
+                    elif op == "wired-on" and s_["on"]:
+                        if req(["network", "node", f"wr{i}", "network_interface", 2, "enable"]) == "success":
+                            s_["wired"] = True
+                    elif op in ("refreq", "refreq-off") and s_["on"]:
+                        # documented way to (re)configure an access point: disables it, sets address + frequency, enables it again
+                        if op == "refreq-off" and s_["ap"]:
+                            if req(["network", "node", f"wr{i}", "network_interface", 1, "disable"]) == "success":
+                                s_["ap"] = False
+                        f_new = rnd.choice(freqs)
+                        R[i].configure_wireless_access_point(ip_address=f"10.100.0.{i}", subnet_mask="255.255.255.0", frequency=AirSpaceFrequency._registry[f_new])
+                        cov.hit("frequency_changes", "same" if f_new == s_["freq"] else "moved")
+                        s_["freq"], s_["ap"] = f_new, True
+                    elif op == "power-off" and s_["on"]:
+                        if req(["network", "node", f"wr{i}", "shutdown"]) == "success":
+                            s_["on"] = False
+                            s_["ap"] = s_["wired"] = False
+                    elif op == "power-on" and not s_["on"]:
+                        if req(["network", "node", f"wr{i}", "startup"]) == "success":
+                            s_["on"] = True
+                            s_["ap"] = s_["wired"] = True
+                    elif op == "arp-clear":
+                        for nd in list(R.values()) + list(H.values()):
+                            if nd.software_manager.arp:
+                                nd.software_manager.arp.clear()
+                    elif op == "tick":
+                        t += 1
+                        sim.apply_timestep(t)
+                        sim.pre_timestep(t)
+                    else:
+                        continue
+                    cov.hit("wireless_ops", op)
+                    # agreement between the oracle's book-keeping and the interfaces themselves (a mismatch is a harness problem, not a finding)
+                    if R[i].network_interface[1].enabled != (s_["ap"] and s_["on"]) or R[i].network_interface[1].frequency.name != s_["freq"]:
+                        cov.inc("oracle_state_mismatch")
+                        return
+                t += 1
+                sim.apply_timestep(t)
+                sim.pre_timestep(t)
+            pairs = [(a, b) for a in st for b in st if a != b]
+            rnd.shuffle(pairs)
+            for a, b in pairs[:4]:
+                exp = expect(a, b)
+                tr.new_op((f"h{a}", f"h{b}", f"round{rd}", {i: dict(v) for i, v in st.items()}))
+                try:
+                    got = bool(H[a].ping(f"10.{b}.0.10", pings=2))
+                except RecursionError:
+                    tr.v("recursion-error-while-forwarding", f"wireless ping h{a}->h{b}: RecursionError")
+                    got = None
+                cov.inc("exchanges")
+                cov.inc("wireless_exchanges")
+                cov.hit("expectation", f"wireless:{'success' if exp else 'fail'}")
+                if exp and got is False:
+                    tr.v("permitted-exchange-fails/wireless", f"ping h{a} -> h{b} failed in round {rd} although both routers are ON with access points enabled on "
+                         f"{st[a]['freq']} and wired interfaces up; state {st}")
+                elif not exp and got is True:
+                    tr.v("impossible-exchange-succeeds/wireless", f"ping h{a} -> h{b} succeeded in round {rd} although state is {st[a]} / {st[b]}")
+                if out:
+                    return
+    finally:
+        probes.uninstall_all()
+
+
+RUN = {"routes": case_routes, "topology": case_topology, "hostile": case_hostile, "wireless": case_wireless}
 
 
 class Check:
@@ -458,13 +590,18 @@ class Check:
         dead = [f"dead-lan-{how}{d}{w}" for how in ("port", "hostoff", "nic") for d in ("", "-default") for w in ("", "-warm")]
         for h in ["loop", "host-gateway", "chain"] + dead:
             specs.append({"name": f"hostile-{h}", "kind": "hostile", "hostile": h, "seed": seed})
+        for s in range(24 if q else 120):
+            sd = seed * 1000 + 500 + s
+            specs.append({"name": f"wireless-{sd}", "kind": "wireless", "seed": sd, "routers": 2 + s % 2, "mixed_start": s % 4 == 3, "rounds": 6 if q else 12})
         return specs
 
     def run_case(self, spec):
         cov, out = Cov(), []
         RUN[spec["kind"]](spec, cov, out)
         e = cov.d.get("expectation", {})
-        nontrivial = (any(k.endswith(":success") for k in e) and any(k.endswith(":fail") for k in e)) if spec["kind"] == "topology" else True
+        nontrivial = (any(k.endswith(":success") for k in e) and any(k.endswith(":fail") for k in e)) if spec["kind"] in ("topology", "wireless") else True
+        if cov.d.get("oracle_state_mismatch"):
+            nontrivial = False
         return {"violations": out, "cov": cov.d, "nontrivial": nontrivial, "digest": digest(spec), "sample": {"case": spec, "expectations": e}}
 
 
